@@ -9,6 +9,7 @@
 
 #include "corecel/Macros.hh"
 #include "corecel/Types.hh"
+#include "corecel/math/Algorithms.hh"
 #include "corecel/math/ArrayOperators.hh"
 #include "celeritas/Constants.hh"
 #include "celeritas/Quantities.hh"
@@ -132,8 +133,12 @@ CELER_FUNCTION Interaction ChipsNeutronElasticInteractor::operator()(Engine& rng
 
     // Sample the scattered direction from the invariant momentum transfer
     // squared (\f$ -t = Q^{2} \f$) in the c.m. frame
-    real_type cos_theta
-        = 1 - real_type(0.5) * sample_momentum_square_(rng) / ipow<2>(cm_p);
+    // (clamped: at the kinematic limit Q^2 = 4 |k_i|^2 rounding can push the
+    // cosine slightly below -1, which would make the final state NaN)
+    real_type cos_theta = clamp(
+        1 - real_type(0.5) * sample_momentum_square_(rng) / ipow<2>(cm_p),
+        real_type(-1),
+        real_type(1));
     CELER_ASSERT(std::fabs(cos_theta) <= 1);
 
     // Boost to the center of mass (c.m.) frame
